@@ -359,10 +359,18 @@ Proof. intros. eapply eval_goalx_correct; eauto. Qed.
 
 (** ** Statistics of the ground search space (the side condition of C02) *)
 
+(** The size the solvers measure ([TySizeVisitor]): every outermost type of an atom is
+    measured on its own — the largest argument of the atom, in symbols (= type nodes). *)
+Fixpoint asize (t : ty) : N :=
+  match t with
+  | TAp f x => N.max (asize f) (tsize x)
+  | _ => 0%N
+  end.
+
 Definition reach_stats (fuel : nat) (cls : list clause) (a : ty) : option (N * N) :=
   match reach (bodies cls) fuel [a] [] with
   | None => None
-  | Some R => Some (fold_right (fun t m => N.max (tsize t) m) 0%N R, N.of_nat (length R))
+  | Some R => Some (fold_right (fun t m => N.max (asize t) m) 0%N R, N.of_nat (length R))
   end.
 
 Definition stats_join (x y : option (N * N)) : option (N * N) :=
@@ -371,7 +379,7 @@ Definition stats_join (x y : option (N * N)) : option (N * N) :=
   | _, _ => None
   end.
 
-(** Size of the search space of a whole (exists-free) goal: the largest term among all atoms
+(** Size of the search space of a whole (exists-free) goal: the largest type among all atoms
     that any complete search has to look at, and their number.  Mirrors [eval_goalx]. *)
 Fixpoint goal_stats (fuel : nat) (P : program) (env : list clause) (rho : list ty) (g : goal) : option (N * N) :=
   match g with
@@ -386,7 +394,7 @@ Fixpoint goal_stats (fuel : nat) (P : program) (env : list clause) (rho : list t
   | GIf hs g' =>
       (* the hypotheses are part of the goal the solvers measure *)
       let hs' := map (inst_hyp rho) hs in
-      let hsz := fold_right (fun c m => N.max (tsize (chead c)) (fold_right (fun b k => N.max (tsize b) k) m (cbody c))) 0%N hs' in
+      let hsz := fold_right (fun c m => N.max (asize (chead c)) (fold_right (fun b k => N.max (asize b) k) m (cbody c))) 0%N hs' in
       stats_join (Some (hsz, 0%N)) (goal_stats fuel P (hs' ++ env) rho g')
   | GNot g' => goal_stats fuel P env rho g'
   end.
